@@ -51,6 +51,7 @@ def check(ctx):
     repo = ctx.repo
     docs = require_labels(EULER_LABELS)
     ctx.note("specification", {k: v[:200] for k, v in docs.items()})
+    ctx.rule("R02.9", "the dt with which the accepted psi solve ran is the dt that is returned, recorded and added to the clock (shared with C12 R12.3/R12.4)", 5)
     ctx.rule("R02.8", "the psi update never writes into the arrays it is handed: a refused attempt leaves psi^n, |psi^n|^2 and mu^n as they were for the retry", 1)
     ctx.rule("R02.7", "z and w are computed from the psi, |psi|^2 and mu of *this* call: update() keeps no hidden numerical state "
                       "across calls beyond the confirmed carried-state table", 4)
@@ -109,6 +110,13 @@ def check(ctx):
            construct="sign of the root", loc=L, message="the '-' root of the quadratic is used",
            consequence="|psi'|^2 diverges as |z| -> 0")
     check_refusals(ctx, f, decided)
+    from ..report import Shared
+    from . import c12
+    sh = Shared(ctx, {"R12.3": "R02.9", "R12.4": "R02.9"},
+                consequence="the answered psi' solves psi' + z|psi'|^2 = w for the reduced dt of the retry, but the step is reported (and the clock "
+                            "advanced) with another dt: with the reported dt the update equation does not hold")
+    c12.retry_loop(sh)
+    c12.step_reported(sh, repo.func("tdgl.solver.solver", "TDGLSolver.update"))
     from ..effects import input_purity
     input_purity(ctx, "R02.8", functions=("TDGLSolver.solve_for_psi_squared", "TDGLSolver.adaptive_euler_step"), min_functions=2,
                  consequence="a refused attempt has already modified psi^n in place: the retry (with a smaller dt) solves the update equation "
